@@ -242,7 +242,7 @@ class Engine:
         key = None
         s = z3.Solver()
         s.set("rlimit", self.rlimit_quick)
-        s.set("timeout", 2000 if full else 4000)
+        s.set("timeout", 600 if full else 4000)
         if full:
             for a in self.axioms.relevant(terms):
                 s.add(a)
